@@ -32,7 +32,7 @@ func NewServerless(userName string, handler handlers.Handler,
 
 // Server returns serverless server indicator.
 func (s *Serverless) Server() string {
-	return "local(serverless)"
+	return user.ServerlessAddress
 }
 
 // Handler returns the handler used for the serverless connection.
